@@ -23,6 +23,35 @@ type RowRec struct {
 	FailAt int
 	Err    error
 	Calls  int
+	// kept holds the node handed to each visit: a consumer may keep what it was given, so once the
+	// walk is over every kept node must still describe the node of ITS visit
+	kept []*gtree.WalkerNode
+}
+
+func rowOf(wn *gtree.WalkerNode) model.Row {
+	return model.Row{Row: wn.Row(), Branch: wn.Branch(), Name: wn.Name(), Level: int(wn.Level()), Path: wn.Path(), HasChild: wn.HasChild()}
+}
+
+// Retained re-reads every kept node (call it right after the walk, before anything else touches
+// the tree) and returns "" when each still shows what it showed at its visit.
+func (r *RowRec) Retained() string {
+	r.mu.Lock()
+	defer r.mu.Unlock()
+	for i, wn := range r.kept {
+		if i < len(r.Rows) && wn != nil && rowOf(wn) != r.Rows[i] {
+			return fmt.Sprintf("the node given to visit %d showed %q / path %q then and shows %q / path %q after the walk", i, r.Rows[i].Row, r.Rows[i].Path, wn.Row(), wn.Path())
+		}
+	}
+	return ""
+}
+
+// Seal folds a retained-node mismatch into the outcome (reported like a crash of the call).
+func (r *RowRec) Seal(o *Outcome) {
+	if o.Panic == nil && o.Err == nil {
+		if s := r.Retained(); s != "" {
+			o.Panic = "walker node changed after its visit: " + s
+		}
+	}
 }
 
 func NewRowRec() *RowRec { return &RowRec{FailAt: -1} }
@@ -32,7 +61,8 @@ func (r *RowRec) Callback(wn *gtree.WalkerNode) error {
 	defer r.mu.Unlock()
 	i := r.Calls
 	r.Calls++
-	r.Rows = append(r.Rows, model.Row{Row: wn.Row(), Branch: wn.Branch(), Name: wn.Name(), Level: int(wn.Level()), Path: wn.Path(), HasChild: wn.HasChild()})
+	r.Rows = append(r.Rows, rowOf(wn))
+	r.kept = append(r.kept, wn)
 	if r.FailAt >= 0 && i == r.FailAt {
 		return r.Err
 	}
@@ -43,6 +73,7 @@ func (r *RowRec) Callback(wn *gtree.WalkerNode) error {
 func WalkMD(doc string, opts ...gtree.Option) ([]model.Row, Outcome) {
 	rec := NewRowRec()
 	o := Guard(func() error { return gtree.WalkFromMarkdown(MDReader(doc), rec.Callback, opts...) })
+	rec.Seal(&o)
 	return rec.Rows, o
 }
 
